@@ -320,7 +320,7 @@ type IllegalCase struct {
 }
 
 var illegalKinds = []string{"config-true-under-false", "config-true-under-false-deep", "config-true-in-grouping-used-under-false", "status-strengthened", "status-strengthened-deep",
-	"current-uses-deprecated-grouping", "current-type-obsolete-typedef", "deprecated-type-obsolete-typedef", "current-iffeature-deprecated-feature", "current-base-deprecated-identity",
+	"current-uses-deprecated-grouping", "current-type-obsolete-typedef", "deprecated-type-obsolete-typedef", "current-iffeature-deprecated-feature", "current-uses-iffeature-deprecated-feature", "current-base-deprecated-identity",
 	"current-refine-deprecated-node", "current-uses-augment-deprecated-node", "current-augment-deprecated-node", "current-grouping-uses-deprecated-grouping", "current-typedef-type-deprecated-typedef",
 	"deviate-add-existing", "deviate-delete-missing", "deviate-delete-wrong-value", "deviate-replace-missing", "not-supported-plus-other", "deviate-add-not-allowed", "deviate-unknown-target", "deviate-replace-not-allowed", "deviate-replace-duplicate", "deviate-unknown-target-in-operation"}
 
@@ -517,6 +517,28 @@ func buildIllegal(kind string, sub int, legal bool) []*sg.Mod {
 			top.Kids = append(top.Kids, e)
 		}
 		place(l)
+	case "current-uses-iffeature-deprecated-feature":
+		// the if-feature is written on a uses (or on the augment of a uses): the reference is made by that statement, whose
+		// status counts - not the status of the nodes the if-feature is handed on to
+		m.Features = []*sg.Feature{{Name: "f", Status: "deprecated"}}
+		gx := leaf("x")
+		gx.Status = "deprecated"
+		m.Groupings = []*sg.Grouping{{Name: "g", Kids: []*sg.Node{gx, {Kind: "container", Name: "gc", Status: "deprecated"}}}}
+		u := &sg.Node{Kind: "uses", Name: ref("g")}
+		if v(2) == 0 {
+			u.IfFeatures = []string{ref("f")}
+			if legal {
+				u.Status = "deprecated"
+			}
+		} else {
+			a := &sg.Augment{Target: "gc", IfFeatures: []string{ref("f")}, Kids: []*sg.Node{leaf("added")}}
+			a.Kids[0].Status = "deprecated"
+			if legal {
+				a.Status = "deprecated"
+			}
+			u.Augments = []*sg.Augment{a}
+		}
+		top.Kids = append(top.Kids, u)
 	case "current-base-deprecated-identity":
 		m.Identities = []*sg.Identity{{Name: "base", Status: "deprecated"}, {Name: "derived", Base: ref("base")}}
 		if legal {
